@@ -353,6 +353,9 @@ type gen struct {
 	tmplKind  map[string]string // resolved kind of the body: const external field object array func
 	// statistics for the non-triviality rule
 	twins, tmplRefs, bigArrays int
+	upwards, weird             int
+	nsDoc                      bool // the XML document being generated uses prefixed element names
+	recID                      string
 	tmplUse                    map[string]int
 	// guards (lifted once the corresponding fix: commits are in /repo)
 	allowEmpty         bool
@@ -423,6 +426,9 @@ func (g *gen) xpath() string {
 		if r.Chance(0.15) {
 			sb.WriteString("*")
 		} else {
+			if r.Chance(0.06) {
+				sb.WriteString("v:")
+			}
 			sb.WriteString(g.name())
 		}
 		if r.Chance(0.25) {
@@ -638,6 +644,56 @@ func (g *gen) decl(c gctx) *GDecl {
 
 var keyPool = []string{"a", "b", "c", "d", "e", "f", "k.1", "p%q", "Z", "m-n", "a.b", "a-b", "z z"}
 
+// field names that stress the fqdn escaping (strs.BuildFQDNWithEsc / LastNameletOfFQDNWithEsc)
+var weirdKeys = []string{"%", "%%", "a%", "%a", ".", "..", "a.", ".a", " a", "a ", " ", "é.ü", "日本", "%.", ".%", "a%%b", "x.y.z",
+	"%%%", "a.%", "q%.", "FINAL_OUTPUT", "elem[1]", "a\tb", "ö%"}
+
+// namesObject: an object of constants under awkward names, with nested objects under awkward names
+func (g *gen) namesObject(depth int) *GDecl {
+	r := g.r
+	d := &GDecl{HasObject: true}
+	used := map[string]bool{}
+	for i := r.Between(2, 5); i > 0; i-- {
+		k := weirdKeys[r.Pick(len(weirdKeys))]
+		if used[k] {
+			continue
+		}
+		used[k] = true
+		if depth > 0 && r.Chance(0.4) {
+			d.Object = append(d.Object, KV{k, g.namesObject(depth - 1)})
+		} else {
+			d.Object = append(d.Object, KV{k, &GDecl{Const: sp(r.PickStr("v", "w", "1", "k"))}})
+		}
+	}
+	sort.Slice(d.Object, func(i, j int) bool { return d.Object[i].Key < d.Object[j].Key })
+	return d
+}
+
+// upward: a declaration anchored on an ANCESTOR of the cursor (a node the stream reader keeps
+// for the whole input, with one node ID) whose children read the record's data back down
+func (g *gen) upward() *GDecl {
+	r := g.r
+	up := r.PickStr("..", "..", "../..")
+	down := "n/"
+	if up == "../.." {
+		down = "*/n/"
+	}
+	if r.Chance(0.3) {
+		down = strings.Replace(down, "n/", "*/", 1)
+	}
+	if r.Chance(0.35) {
+		return &GDecl{XPath: sp(up), Func: &GFunc{Name: "concat", Args: []*GDecl{
+			{XPath: sp(down + r.PickStr("@id", "id"))}, {Const: sp("-")}, {XPath: sp(down + g.name())}}}}
+	}
+	d := &GDecl{XPath: sp(up), HasObject: true, Keep: r.Chance(0.3)}
+	d.Object = append(d.Object, KV{"i", &GDecl{XPath: sp(down + r.PickStr("@id", "id"))}})
+	d.Object = append(d.Object, KV{"j", &GDecl{XPath: sp(down + g.name())}})
+	if r.Chance(0.5) {
+		d.Object = append(d.Object, KV{"l", &GDecl{HasArray: true, Array: []*GDecl{{XPath: sp(down + "*")}}}})
+	}
+	return d
+}
+
 func (g *gen) object(c gctx) *GDecl {
 	r := g.r
 	d := &GDecl{HasObject: true, Keep: r.Chance(0.2)}
@@ -650,6 +706,9 @@ func (g *gen) object(c gctx) *GDecl {
 	cc := gctx{depth: c.depth - 1, inDyn: c.inDyn}
 	for i := 0; i < n; i++ {
 		k := keyPool[r.Pick(len(keyPool))]
+		if r.Chance(0.12) {
+			k = weirdKeys[r.Pick(len(weirdKeys))]
+		}
 		if used[k] {
 			continue
 		}
@@ -731,7 +790,7 @@ func (g *gen) schema() (Decls, string) {
 	r := g.r
 	ds := Decls{}
 	g.tmplNames, g.tmplXPath, g.tmplUse, g.tmplKind = nil, map[string]bool{}, map[string]int{}, map[string]string{}
-	g.twins, g.tmplRefs, g.bigArrays = 0, 0, 0
+	g.twins, g.tmplRefs, g.bigArrays, g.upwards, g.weird = 0, 0, 0, 0, 0
 	nt := r.Pick(4)
 	// templates are generated last-to-first so that t_i only references t_j with j > i
 	var names []string
@@ -760,6 +819,38 @@ func (g *gen) schema() (Decls, string) {
 		}
 		fo.Object = append(fo.Object, KV{"zarr", a})
 		g.bigArrays++
+	}
+	if fo.HasObject {
+		has := map[string]bool{}
+		for _, kv := range fo.Object {
+			has[kv.Key] = true
+		}
+		add := func(k string, d *GDecl) {
+			if !has[k] {
+				has[k] = true
+				fo.Object = append(fo.Object, KV{k, d})
+			}
+		}
+		if r.Chance(0.2) {
+			add("up", g.upward())
+			g.upwards++
+		}
+		if r.Chance(0.15) {
+			add(weirdKeys[r.Pick(len(weirdKeys))], g.namesObject(2))
+			g.weird++
+		}
+		if r.Chance(0.4) {
+			nm := g.name()
+			if r.Chance(0.5) {
+				nm = "item"
+			}
+			add("pid", &GDecl{XPath: sp(nm), Keep: r.Chance(0.3)})
+			add("parr", &GDecl{HasArray: true, Array: []*GDecl{{XPath: sp(nm)}}})
+			if r.Chance(0.3) {
+				add("pv", &GDecl{HasArray: true, Array: []*GDecl{{XPath: sp("v:" + nm)}}})
+			}
+		}
+		sort.Slice(fo.Object, func(i, j int) bool { return fo.Object[i].Key < fo.Object[j].Key })
 	}
 	fo.XDyn = nil
 	fo.XPath = nil
@@ -791,7 +882,7 @@ func (g *gen) schema() (Decls, string) {
 // ---- records -------------------------------------------------------------------------------------
 
 var textPool = []string{"v", "w", " v ", "1", "2", "42", "-7", "3.5", "true", "false", "x", "", " ", "\tTab\n", "a b", "007",
-	"1.250", "T", " nb　", "b", "c", "+5", ".5", "10.", "123456789012345", "0.000125"}
+	"1.250", "T", " nb　", "b", "c", "+5", ".5", "10.", "1234567", "0.000125"}
 
 func (g *gen) text() string { return textPool[g.r.Pick(len(textPool))] }
 
@@ -809,6 +900,11 @@ func (g *gen) xmlElem(sb *strings.Builder, name string, depth int) {
 	r := g.r
 	sb.WriteString("<" + name)
 	used := map[string]bool{}
+	if depth == 3 && g.recID != "" {
+		// the record element: an id that differs from record to record
+		used["id"] = true
+		sb.WriteString(` id="` + g.recID + `"`)
+	}
 	for i := r.Pick(3); i > 0; i-- {
 		a := attrNames[r.Pick(len(attrNames))]
 		if used[a] {
@@ -825,12 +921,30 @@ func (g *gen) xmlElem(sb *strings.Builder, name string, depth int) {
 	if nk == 0 || r.Chance(0.3) {
 		sb.WriteString(xmlEsc(g.text()))
 	}
+	if depth == 3 && g.nsDoc && r.Chance(0.7) {
+		// directly under the record: the same local name with and without a prefix
+		sb.WriteString("<v:item>" + xmlEsc(g.text()) + "</v:item><item>" + xmlEsc(g.text()) + "</item>")
+		if r.Chance(0.3) {
+			sb.WriteString("<v:item>" + xmlEsc(g.text()) + "</v:item>")
+		}
+	}
 	for i := 0; i < nk; i++ {
 		cn := g.name()
+		if g.nsDoc && r.Chance(0.3) {
+			cn = "v:" + cn // same local names, some prefixed some not
+		}
 		if r.Chance(0.25) {
 			cn = name // nested same name (x inside x)
 		}
 		g.xmlElem(sb, cn, depth-1)
+		if g.nsDoc && r.Chance(0.4) {
+			// a sibling with the same local name and the other prefix status
+			if strings.HasPrefix(cn, "v:") {
+				g.xmlElem(sb, strings.TrimPrefix(cn, "v:"), depth-1)
+			} else {
+				g.xmlElem(sb, "v:"+cn, depth-1)
+			}
+		}
 		if r.Chance(0.15) {
 			sb.WriteString(xmlEsc(g.text()))
 		}
@@ -840,8 +954,17 @@ func (g *gen) xmlElem(sb *strings.Builder, name string, depth int) {
 
 func (g *gen) xmlDoc(nrec int) string {
 	var sb strings.Builder
-	sb.WriteString("<r>")
+	g.nsDoc = g.r.Chance(0.5)
+	if g.nsDoc {
+		sb.WriteString(`<r xmlns:v="urn:v">`)
+	} else {
+		sb.WriteString("<r>")
+	}
 	for i := 0; i < nrec; i++ {
+		g.recID = ""
+		if g.r.Chance(0.6) {
+			g.recID = fmt.Sprint(i + 1)
+		}
 		g.xmlElem(&sb, "n", 3)
 		if g.r.Chance(0.3) {
 			sb.WriteString("\n")
@@ -902,6 +1025,12 @@ func (g *gen) jsonDoc(nrec int) string {
 		sb.WriteString("{")
 		used := map[string]bool{}
 		first := true
+		if g.r.Chance(0.6) {
+			// a property that differs from record to record
+			used["id"] = true
+			first = false
+			sb.WriteString(fmt.Sprintf(`"id":%d`, i+1))
+		}
 		for j := g.r.Between(2, 6); j > 0; j-- {
 			k := g.name()
 			if used[k] {
